@@ -1,1 +1,68 @@
-(* placeholder *)
+(* C04 -- strict construction enforces one owner per CURIE prefix and per URI prefix.
+   clash keysf rs = true: some string is claimed (canonical or synonym) by two records at different positions. *)
+From Curies.model Require Import Str PyData Trie Conv Query Val Answer Spec CheckQ Loaders CheckL.
+From Curies.proofs Require Import StrFacts IndexFacts QueryFacts C04Facts.
+
+Theorem C04_iff : forall d rs, (exists c, mk_conv true d rs = Val c) <-> strictb rs = true.
+Proof. exact mk_conv_iff. Qed.
+Print Assumptions C04_iff.
+
+Theorem C04_clash_meaning : forall keysf rs, clash keysf rs = false <-> pairwise (disjoint_keys keysf) rs.
+Proof. exact clash_spec. Qed.
+Print Assumptions C04_clash_meaning.
+
+(* DuplicateURIPrefixes is raised before DuplicatePrefixes, each with a non-empty listing *)
+Theorem C04_uri_first : forall d rs,
+  (clash all_uris rs = true -> mk_conv true d rs = Raise EDuplicateURIPrefixes /\ dups all_uris (sort_records rs) <> []) /\
+  (clash all_uris rs = false -> clash all_prefixes rs = true ->
+     mk_conv true d rs = Raise EDuplicatePrefixes /\ dups all_prefixes (sort_records rs) <> []).
+Proof. exact mk_conv_error. Qed.
+Print Assumptions C04_uri_first.
+
+(* the listing: every pair of records (in the constructor's order) with every string they share *)
+Theorem C04_listing : forall keysf rs r1 r2 x, In (r1, r2, x) (dups keysf rs) <->
+  In (r1, r2) (combinations2 rs) /\ In x (keysf r1) /\ In x (keysf r2).
+Proof. exact dups_listing. Qed.
+Print Assumptions C04_listing.
+
+Theorem C04_record : forall p u ps us pat, (exists r, mk_record p u ps us pat = Val r) <-> ~ In p ps /\ ~ In u us.
+Proof. exact mk_record_iff. Qed.
+Print Assumptions C04_record.
+
+(* in every strict converter each prefix / URI prefix has exactly one owner, and the indexes return it *)
+Theorem C04_unique_owner : forall d rs c, mk_conv true d rs = Val c ->
+  one_owner all_prefixes rs /\ one_owner all_uris rs /\
+  (forall p, dget p (synmap c) = option_map r_prefix (owner_by_prefix rs p)) /\
+  (forall p, dget p (pmap c) = option_map r_uri (owner_by_prefix rs p)) /\
+  (forall u, find u (ctrie c) = option_map r_prefix (owner all_uris rs u)).
+Proof.
+  intros d rs c H. repeat split; [exact (own_p d rs c H) | exact (own_u d rs c H) | exact (L_synmap d rs c H)
+    | exact (L_pmap d rs c H) | exact (L_trie d rs c H)].
+Qed.
+Print Assumptions C04_unique_owner.
+
+(* bimap and reverse_bimap are mutually inverse bijections over the records *)
+Theorem C04_bimap : forall d rs c, mk_conv true d rs = Val c -> forall p u,
+  (dget p (bimap c) = Some u <-> rec_with rs p u) /\ (dget u (reverse_bimap c) = Some p <-> rec_with rs p u).
+Proof. exact bimap_inverse. Qed.
+Print Assumptions C04_bimap.
+Theorem C04_bimap_inverse : forall d rs c, mk_conv true d rs = Val c -> forall p u,
+  dget p (bimap c) = Some u <-> dget u (reverse_bimap c) = Some p.
+Proof. exact bimap_reverse_bimap. Qed.
+Print Assumptions C04_bimap_inverse.
+
+(* every loader is the strict constructor applied to the records its input denotes, so the iff transfers *)
+Theorem C04_loaders : forall d i, load true d (records_of i) = bind (records_of i) (mk_conv true d).
+Proof. reflexivity. Qed.
+Print Assumptions C04_loaders.
+Theorem C04_outcome : forall d rs, load_code (mk_conv true d rs) = expected_code rs.
+Proof. exact load_code_spec. Qed.
+Print Assumptions C04_outcome.
+
+Definition r (p u : str) ps us := {| r_prefix := p; r_uri := u; r_psyn := ps; r_usyn := us; r_pat := None |}.
+Example C04_nonvacuous :
+  strictb [r [97] [104] [[98]] []; r [99] [105] [] [[106]]]%N = true /\
+  mk_conv true [58%N] [r [97] [104] [[98]] []; r [99] [105] [[98]] [[104]]]%N = Raise EDuplicateURIPrefixes /\
+  mk_conv true [58%N] [r [97] [104] [[98]] []; r [99] [105] [[98]] []]%N = Raise EDuplicatePrefixes /\
+  mk_record [97]%N [104]%N [[97]]%N [] None = Raise ERecordValidation.
+Proof. vm_compute. auto. Qed.
